@@ -10,15 +10,29 @@ import (
 
 	verif "github.com/gittuf/gittuf/internal/zzverif"
 	"github.com/gittuf/gittuf/pkg/githash"
+	"github.com/gittuf/gittuf/pkg/gitinterface"
+	"github.com/gittuf/gittuf/pkg/gitstore"
 )
 
-func HarnessC17Concurrent() {
+func HarnessC17Concurrent() { zz17Run(false) }
+
+// HarnessC17GitInterface: the same scenario with the writers going through the
+// real gitinterface.Repository (GetReference, Commit = read tip / commit-tree /
+// compare-and-set update-ref, GetCommitMessage, GetCommitParentIDs, ...) over
+// the git command model; control changes hands at every git command.
+func HarnessC17GitInterface() { zz17Run(true) }
+
+func zz17Run(viaGitInterface bool) {
 	newRSLCache()
 	w := zz3NewWorld()
 	s := w.s
+	var st gitstore.Storer = s
+	if viaGitInterface {
+		st = gitinterface.ZZNewModelRepo(s)
+	}
 	// start state: empty log or one recorded entry
 	if verif.ConcreteBool(verif.Bool("start.nonempty")) {
-		zz3Must(NewReferenceEntry("refs/heads/main", w.commits[0]).Commit(s, false))
+		zz3Must(NewReferenceEntry("refs/heads/main", w.commits[0]).Commit(st, false))
 	}
 	startIDs, _, okStart := zz3Walk(s)
 	verif.Assert(okStart, "start-log-valid")
@@ -31,19 +45,30 @@ func HarnessC17Concurrent() {
 		verif.Spawn(func() {
 			switch kind {
 			case 0:
-				errs[t] = NewReferenceEntry("refs/heads/main", w.commits[1]).Commit(s, false)
+				errs[t] = NewReferenceEntry("refs/heads/main", w.commits[1]).Commit(st, false)
 			case 1:
-				errs[t] = NewReferenceEntry("refs/gittuf/policy-staging", w.commits[2]).Commit(s, false)
+				errs[t] = NewReferenceEntry("refs/gittuf/policy-staging", w.commits[2]).Commit(st, false)
 			default:
 				if len(startIDs) == 0 {
-					errs[t] = NewReferenceEntry("refs/heads/feature", w.commits[1]).Commit(s, false)
+					errs[t] = NewReferenceEntry("refs/heads/feature", w.commits[1]).Commit(st, false)
 				} else {
-					errs[t] = NewAnnotationEntry([]githash.Hash{startIDs[0]}, true, "m").Commit(s, false)
+					errs[t] = NewAnnotationEntry([]githash.Hash{startIDs[0]}, true, "m").Commit(st, false)
 				}
 			}
 		})
 	}
-	s.OnCall = func(method string) { verif.Yield(method) }
+	// Partial-order reduction for the git-command variant: commands that only
+	// read content-addressed (immutable) objects, and commit-tree, whose new
+	// object is unreachable until a reference names it, commute with every
+	// other command; control changes hands only at commands that read or
+	// write a reference.  por=0 yields at every command.
+	por := viaGitInterface && verif.Bound("por", 1, 1) == 1
+	s.OnCall = func(method string) {
+		if por && method != "git rev-parse" && method != "git update-ref" {
+			return
+		}
+		verif.Yield(method)
+	}
 	verif.RunThreads()
 	s.OnCall = nil
 
@@ -92,7 +117,7 @@ func HarnessC17Concurrent() {
 	verif.Assert(consecutive || k1, "numbers-are-consecutive")
 	if consecutive {
 		// every reader can walk the log end to end
-		_, _, err := GetFirstEntry(s)
+		_, _, err := GetFirstEntry(st)
 		verif.Assert(err == nil, "readers-walk-the-log")
 		verif.Reach("valid-log")
 	}
